@@ -34,8 +34,8 @@ META = {
 }
 
 XSI = seam.XSI
-UNKNOWN_EL = ["zzz", "{urn:zz}q", "v", "{urn:a}known", "{urn:b}zz", "n"]
-UNKNOWN_AT = ["zz", "{urn:zz}a", "{%s}foo" % XSI, "{%s}schemaLocation" % XSI, "{%s}noNamespaceSchemaLocation" % XSI]
+UNKNOWN_EL = ["zzz", "{urn:zz}q", "v", "{urn:a}known", "{urn:b}zz", "n", "@sibling"]  # @sibling: inside a wrapper element, the name of a sibling FIELD of the wrapped list
+UNKNOWN_AT = ["zz", "{urn:zz}a", "{%s}foo" % XSI, "{%s}schemaLocation" % XSI, "{%s}noNamespaceSchemaLocation" % XSI, "{%s}type" % XSI]  # xsi:type only with the EMPTY value (see inject_attribute)
 
 _DOC = PART.get("doc", "basic")
 _CLS, _OBJ = mutate.DOCS[_DOC]
@@ -94,6 +94,10 @@ def inject_element(e: int, slot: int, shape: int, name: int, txt: str) -> bool:
     root = st["base"].copy()
     node = mutate.nodes(root)[POS[e]]
     nm = UNKNOWN_EL[name]
+    if nm == "@sibling":
+        nm = _WRAPPER_SIBLING.get(POS[e])
+        if nm is None:
+            return True
     # the injected name must be unknown *at that position*: skip names the parent element itself declares
     if nm in _KNOWN_CHILD_NAMES.get(POS[e], ()):
         return True
@@ -122,6 +126,12 @@ def inject_attribute(e: int, name: int, txt: str) -> bool:
     node = mutate.nodes(root)[e]
     if e not in COMPLEX_OR_CLASS:
         return True  # attributes on simple-typed elements are ignored by construction (no attribute binding there)
+    if _KNOWN_WRAPPER_ATTR and e in _WRAPPER_SIBLING_OR_WRAPPER:
+        return True  # exactly the signature of the listed known finding (attribute on a wrapper element)
+    if UNKNOWN_AT[name].endswith("}type") and len(txt) > 0:
+        return True  # a non-empty unknown xsi:type is a fault (C15), only the empty one is "no type given"
+    if UNKNOWN_AT[name].endswith("}type") and UNKNOWN_AT[name] in node.attrs:
+        return True
     node.attrs[UNKNOWN_AT[name]] = txt
     cfg = _cfg()
     is_xsi = name >= 2
@@ -284,6 +294,9 @@ NP = len(_DPATHS)
 
 # which names each position's element already knows as children (so an injected element is really unknown there)
 _KNOWN_CHILD_NAMES = {}
+_WRAPPER_SIBLING_OR_WRAPPER = set()  # positions of wrapper elements
+_KNOWN_WRAPPER_ATTR = known("C10-wrapper-element-attributes-ignored")
+_WRAPPER_SIBLING = {}  # position of a wrapper element -> qualified name of another element field of the same class
 
 
 def _known_names():
@@ -307,11 +320,23 @@ def _known_names():
         meta_by_pos[idx] = meta
         for c in node.children:
             cm = None
+            wrapped = None
             if meta is not None:
                 for var in meta.get_all_vars():
                     if var.qname == c.qname and var.clazz:
                         cm = ctx.build(var.clazz, meta.namespace)
-            walk(node_idx_iter, c, cm)
+                    if var.wrapper_qname == c.qname:
+                        wrapped = var
+            pos = walk(node_idx_iter, c, cm)
+            if wrapped is not None:
+                # the wrapper element: its only known child is the wrapped item
+                _KNOWN_CHILD_NAMES[pos] = {wrapped.qname}
+                meta_by_pos[pos] = meta
+                _WRAPPER_SIBLING_OR_WRAPPER.add(pos)
+                others = [v.qname for v in meta.get_all_vars() if v.is_element and v.qname != wrapped.qname and not v.wrapper_qname]
+                if others:
+                    _WRAPPER_SIBLING[pos] = others[0]
+        return idx
 
     walk(iter(range(10**6)), _TREE, ctx.build(_CLS))
     return meta_by_pos
@@ -370,3 +395,17 @@ def poly_unknown_witness():
         return DictDecoder(config=ParserConfig(fail_on_unknown_properties=False)).decode(data, Holder) == Holder(b=Derived(x=1, y="q"))
     except Exception:  # noqa: BLE001
         return False
+
+
+def wrapper_attr_witness():
+    """Known finding C10-wrapper-element-attributes-ignored through the public text API."""
+    from harness.models import Wrapped
+    from xsdata.formats.dataclass.parsers import XmlParser
+    from xsdata.formats.dataclass.parsers.config import ParserConfig as PC
+
+    xml = '<wr xmlns="urn:a"><ints bogus="1"><i>1</i></ints><tail>t</tail></wr>'
+    try:
+        XmlParser(config=PC(fail_on_unknown_attributes=True)).from_string(xml, Wrapped)
+    except ParserError:
+        return True
+    return False
